@@ -167,7 +167,7 @@ func TestC08(t *testing.T) {
 	curProp = "C08"
 	r := vf.NewRec("C08")
 	defer r.Finish(t)
-	guard.StartWatchdog(*vf.Out, "C08")
+	guard.StartWatchdog(*vf.Out, vf.Label("C08"))
 
 	for _, rf := range r.LoadReplays(t) {
 		var c caseC08
